@@ -8,7 +8,15 @@
 //	req <pow verdict> <pub> <sha256(pub)> <base64url(sha256 pub)>
 //	                                             => ok,<cn>,<cert key>,<verifies under CA>,<identity id>,<identity token>,<version> | err,<pow verdict>
 //	renew <e|g|p: der empty/garbage/parsed> <verifies under CA> <cn> <version by the real Extract | err | panic> <pow verdict>
-//	      <proof key> <cert ed25519 key | none>  => ok,<new cn>,<new key>,<verifies under CA>,<raw subject identical> | err,<kind> | panic
+//	      <proof key> <cert ed25519 key | none> <chain>
+//	                                             => ok,<new cn>,<new key>,<verifies under CA>,<raw subject identical> | err,<kind> | panic
+//
+// <chain> describes the server's ClientCA (a tls.Certificate, i.e. a chain of DER blobs) as seen by the presented
+// certificate: `-` for an empty chain, else one letter per element: n = not a parseable certificate, t / f = the presented
+// certificate verifies / does not verify (ClientAuth) with that element as the ONLY root.  "verifies under CA" always means:
+// with the client CA certificate (element 0) as the only root.  The servers under test: a single self-signed client CA; a
+// client CA that is an intermediate with its root bundled; a three-level bundle; a bundle with an unrelated certificate; a
+// bundle with a garbage tail; an unparsable / empty ClientCA.
 //
 // x509 verification, sha256, base64, ed25519 and the proof-of-work verdict (real pow.VerifySolution with the
 // server's parameters, evaluated right before and right after the server call) are inputs of the model.
@@ -32,6 +40,7 @@ import (
 	"strings"
 	"time"
 
+	"github.com/twitchtv/twirp"
 	pkiserver "go.miragespace.co/specter/pki"
 	"go.miragespace.co/specter/spec/pki"
 	"go.miragespace.co/specter/spec/pow"
@@ -43,9 +52,13 @@ import (
 var r *hlib.Run
 var rng *hlib.Rng
 
-func genCA(cn string) (tls.Certificate, *x509.Certificate) {
+var caSerial int64 = 1233
+
+// a CA certificate named cn with a fresh ed25519 key: self-signed when parent == nil, else issued by parent
+func genCAUnder(cn string, parent *tls.Certificate) (tls.Certificate, *x509.Certificate) {
+	caSerial++
 	tpl := &x509.Certificate{
-		SerialNumber: big.NewInt(1234), Subject: pkix.Name{CommonName: cn},
+		SerialNumber: big.NewInt(caSerial), Subject: pkix.Name{CommonName: cn},
 		NotBefore: time.Now().Add(-time.Hour), NotAfter: time.Now().AddDate(10, 0, 0), IsCA: true,
 		ExtKeyUsage:           []x509.ExtKeyUsage{x509.ExtKeyUsageClientAuth, x509.ExtKeyUsageServerAuth},
 		KeyUsage:              x509.KeyUsageDigitalSignature | x509.KeyUsageCertSign,
@@ -55,7 +68,12 @@ func genCA(cn string) (tls.Certificate, *x509.Certificate) {
 	if err != nil {
 		panic(err)
 	}
-	der, err := x509.CreateCertificate(rand.Reader, tpl, tpl, pub, priv)
+	signer, signKey := tpl, any(priv)
+	if parent != nil {
+		signer, _ = x509.ParseCertificate(parent.Certificate[0])
+		signKey = parent.PrivateKey
+	}
+	der, err := x509.CreateCertificate(rand.Reader, tpl, signer, pub, signKey)
 	if err != nil {
 		panic(err)
 	}
@@ -63,19 +81,104 @@ func genCA(cn string) (tls.Certificate, *x509.Certificate) {
 	return tls.Certificate{Certificate: [][]byte{der}, PrivateKey: priv}, c
 }
 
+func genCA(cn string) (tls.Certificate, *x509.Certificate) { return genCAUnder(cn, nil) }
+
+// one server configuration: `ca` is what the server holds (ClientCA: client CA first, then whatever is bundled behind it);
+// `bundled` are the issuers (with their keys) of the certificates bundled behind the client CA; `sibling` is a CA under the
+// same root that is NOT part of the bundle.
+type setup struct {
+	name    string
+	ca      tls.Certificate
+	bundled []tls.Certificate
+	sibling *tls.Certificate
+}
+
+func bundle(first tls.Certificate, rest ...tls.Certificate) tls.Certificate {
+	out := tls.Certificate{Certificate: [][]byte{first.Certificate[0]}, PrivateKey: first.PrivateKey}
+	for _, c := range rest {
+		out.Certificate = append(out.Certificate, c.Certificate[0])
+	}
+	return out
+}
+
+func makeSetups() []*setup {
+	single, _ := genCA("verif client ca")
+	// client CA is an intermediate; the PEM bundle (as tls.X509KeyPair loads it) carries its root behind it
+	root2, _ := genCA("verif root")
+	ca2, _ := genCAUnder("verif client ca", &root2)
+	sib2, _ := genCAUnder("verif client ca", &root2) // same name, same root, other key, not bundled
+	// three levels
+	root3, _ := genCA("verif root")
+	mid3, _ := genCAUnder("verif mid", &root3)
+	ca3, _ := genCAUnder("verif client ca", &mid3)
+	sib3, _ := genCAUnder("verif other ca", &mid3)
+	// a self-signed client CA with an unrelated certificate in the same file
+	ca4, _ := genCA("verif client ca")
+	other4, _ := genCA("verif client ca")
+	// garbage behind the client CA
+	ca5, _ := genCA("verif client ca")
+	g5 := bundle(ca5)
+	g5.Certificate = append(g5.Certificate, rng.Bytes(64))
+	return []*setup{
+		{name: "single", ca: single},
+		{name: "chain2", ca: bundle(ca2, root2), bundled: []tls.Certificate{root2}, sibling: &sib2},
+		{name: "chain3", ca: bundle(ca3, mid3, root3), bundled: []tls.Certificate{mid3, root3}, sibling: &sib3},
+		{name: "unrelated", ca: bundle(ca4, other4), bundled: []tls.Certificate{other4}},
+		{name: "garbage-tail", ca: g5},
+	}
+}
+
+func use(s *setup) {
+	ca = s.ca
+	caCert = nil
+	if len(ca.Certificate) > 0 {
+		caCert, _ = x509.ParseCertificate(ca.Certificate[0])
+	}
+	server = &pkiserver.Server{Logger: zap.NewNop(), ClientCA: ca}
+	cur = s
+}
+
 var (
-	ca, foreign       tls.Certificate
-	caCert            *x509.Certificate
-	server            *pkiserver.Server
-	powParams         pow.Parameters
-	errTok            = map[string]string{}
+	ca, foreign tls.Certificate
+	caCert      *x509.Certificate
+	server      *pkiserver.Server
+	powParams   pow.Parameters
+	errTok      = map[string]string{}
+	cur         *setup
 )
 
-func verifiesUnderCA(c *x509.Certificate) bool {
+// does c verify (ClientAuth) with `root` as the only trust anchor
+func verifiesUnder(c, root *x509.Certificate) bool {
+	if c == nil || root == nil {
+		return false
+	}
 	pool := x509.NewCertPool()
-	pool.AddCert(caCert)
+	pool.AddCert(root)
 	_, err := c.Verify(x509.VerifyOptions{Roots: pool, KeyUsages: []x509.ExtKeyUsage{x509.ExtKeyUsageClientAuth}})
 	return err == nil
+}
+
+// "issued by the client CA": verifies with the client CA certificate (ClientCA.Certificate[0]) as the only root
+func verifiesUnderCA(c *x509.Certificate) bool { return verifiesUnder(c, caCert) }
+
+// the server's ClientCA chain as seen by the presented certificate (nil = not parsed)
+func chainTok(old *x509.Certificate) string {
+	if len(ca.Certificate) == 0 {
+		return "-"
+	}
+	var out []string
+	for _, der := range ca.Certificate {
+		el, err := x509.ParseCertificate(der)
+		switch {
+		case err != nil:
+			out = append(out, "n")
+		case verifiesUnder(old, el):
+			out = append(out, "t")
+		default:
+			out = append(out, "f")
+		}
+	}
+	return strings.Join(out, ",")
 }
 
 func classifyPow(err error) string {
@@ -239,6 +342,9 @@ func doReq(kind string, proof *protocol.ProofOfWork) []byte {
 }
 
 func classifyRenew(err error) string {
+	if te, ok := err.(twirp.Error); ok && te.Code() == twirp.Internal {
+		return "caparse" // the only internal errors: the client CA does not parse / cannot sign
+	}
 	m := err.Error()
 	for _, p := range [][2]string{
 		{"current_cert_der is required", "required"}, {"failed to parse certificate", "parse"},
@@ -292,13 +398,15 @@ func doRenew(kind string, der []byte, proof *protocol.ProofOfWork) {
 		r.Raw("# renew skipped: proof verdict changed during the call (expiry boundary)")
 		return
 	}
-	r.Emit(strings.Join([]string{"renew", state, hlib.B(caOK), hlib.HexS(cn), xver, before, hlib.Hex(proof.GetPubKey()), certKey}, " "), res)
-	r.Case("renew" + kind + hlib.Hex(der[:min(len(der), 64)]) + hlib.Hex(proof.GetSignature()))
+	chain := chainTok(old)
+	r.Emit(strings.Join([]string{"renew", state, hlib.B(caOK), hlib.HexS(cn), xver, before, hlib.Hex(proof.GetPubKey()), certKey, chain}, " "), res)
+	r.Case("renew" + cur.name + kind + hlib.Hex(der[:min(len(der), 64)]) + hlib.Hex(proof.GetSignature()))
 	if strings.HasPrefix(res, "ok,") {
 		r.Count("renew:" + kind + ":ok")
 	} else {
 		r.Count("renew:" + kind + ":" + res)
 	}
+	r.Count("ca:" + cur.name + ":chain=" + chain + ":" + strings.SplitN(res, ",", 2)[0])
 }
 
 // certificate signed by `issuer` with full control over the template
@@ -415,8 +523,66 @@ func genServer(rounds int) {
 				doRenew("stolen-subject", issue(ca, cn, p2.Public(), clientAuth, far), c.proof)
 			}
 		}
+		// certificates that chain to something bundled BEHIND the client CA in the server's ClientCA (its issuer, the root,
+		// an unrelated certificate of the same file) or to a sibling CA: own key, own valid proof, v2 subject — everything
+		// is right except the issuer
+		for bi, b := range cur.bundled {
+			if !rng.Chance(70) {
+				continue
+			}
+			tag := "bundled" + strconv.Itoa(bi+1)
+			switch rng.Intn(3) {
+			case 0: // the very subject the client CA issued, re-issued by the bundled certificate
+				doRenew(tag+"-same-subject", issue(b, cn, c.pub, clientAuth, far), c.proof)
+			case 1: // the repository's own issuing routine with the bundled certificate as CA
+				sh, _ := subjectOf(c.pub)
+				if der, err := pki.GenerateCertificate(zap.NewNop(), b, pki.IdentityRequest{PublicKey: c.pub, Subject: pki.MakeSubjectV2(randID(), sh)}); err == nil {
+					doRenew(tag+"-generated", der, c.proof)
+				}
+			default: // v2 subject naming some other hash
+				_, h := subjectOf(rng.Bytes(32))
+				doRenew(tag+"-v2-other-hash", issue(b, "v2:"+strconv.FormatUint(randID(), 10)+":"+h, c.pub, clientAuth, far), c.proof)
+			}
+			if rng.Chance(25) { // two deviations: bundled issuer AND a proof by another key
+				if prev != nil {
+					doRenew(tag+"-other-key-proof", issue(b, cn, c.pub, clientAuth, far), prev.proof)
+				}
+			}
+		}
+		if cur.sibling != nil && rng.Chance(50) {
+			doRenew("sibling-ca", issue(*cur.sibling, cn, c.pub, clientAuth, far), c.proof)
+		}
 		prev = c
 	}
+}
+
+// servers whose ClientCA has no usable first element: RenewCertificate must not renew anything (internal error / index panic);
+// the presented certificates are genuine ones issued by `good`
+func genBrokenCA(good *setup) {
+	use(good)
+	priv := ed25519.NewKeyFromSeed(rng.Bytes(32))
+	req, err := pkiserver.CreateRequest(priv)
+	if err != nil {
+		r.Raw("# CreateRequest failed: " + err.Error())
+		return
+	}
+	resp, err := server.RequestCertificate(context.Background(), req)
+	if err != nil {
+		r.Raw("# RequestCertificate failed: " + err.Error())
+		return
+	}
+	der := resp.GetCertDer()
+	for _, s := range []*setup{
+		{name: "unparsable-ca", ca: tls.Certificate{Certificate: [][]byte{rng.Bytes(80), good.ca.Certificate[0]}, PrivateKey: good.ca.PrivateKey}},
+		{name: "truncated-ca", ca: tls.Certificate{Certificate: [][]byte{good.ca.Certificate[0][:len(good.ca.Certificate[0])-3], good.ca.Certificate[0]}, PrivateKey: good.ca.PrivateKey}},
+		{name: "empty-ca", ca: tls.Certificate{PrivateKey: good.ca.PrivateKey}},
+	} {
+		use(s)
+		doRenew("genuine", der, req.Proof)
+		doRenew("empty-der", nil, req.Proof)
+		doRenew("garbage-der", rng.Bytes(1+rng.Intn(100)), req.Proof)
+	}
+	use(good)
 }
 
 func main() {
@@ -425,9 +591,9 @@ func main() {
 	r.Rule = "subjects: MakeSubjectV1/V2 over boundary + random uint64 ids and random hashes, hand-made CommonNames (versions, signs, overflow, missing parts, arbitrary bytes); " +
 		"server: per round a fresh ed25519 key with a real difficulty-18 proof (CreateRequest), RequestCertificate with valid/tampered proofs, then RenewCertificate with ONE deviation each: " +
 		"proof of another key, other certificate, foreign CA, self-signed, v1 subject, odd subjects, bad/no proof, empty/garbage DER, ECDSA certificate, wrong EKU, expired certificate. non-trivial = distinct op line"
-	ca, caCert = genCA("verif client ca")
+	setups := makeSetups()
 	foreign, _ = genCA("verif client ca") // same name, other key
-	server = &pkiserver.Server{Logger: zap.NewNop(), ClientCA: ca}
+	use(setups[0])
 	powParams = pow.Parameters{Difficulty: pki.HashcashDifficulty, Expires: pki.HashcashExpires, GetSubject: func(pub ed25519.PublicKey) string {
 		_, s := subjectOf(pub)
 		return s
@@ -462,6 +628,17 @@ func main() {
 		nsub, rounds = 100000, 400
 	}
 	genSubjects(nsub)
-	genServer(rounds)
+	// every configuration gets its share of the rounds; the order is drawn so that no configuration is always last
+	share := []int{30, 25, 20, 15, 10}
+	order := []int{0, 1, 2, 3, 4}
+	for i := len(order) - 1; i > 0; i-- {
+		j := rng.Intn(i + 1)
+		order[i], order[j] = order[j], order[i]
+	}
+	for _, i := range order {
+		use(setups[i])
+		genServer(max(2, rounds*share[i]/100))
+	}
+	genBrokenCA(setups[0])
 	r.Finish()
 }
